@@ -4,7 +4,7 @@ Only the bookkeeping *shape* is decided (which counter is written from which ope
 under which lock); totals over histories are not."""
 from ..analysis import (path_count, Slice, atomic_events, closure_capture_ops, GuardLiveness, switch_guards,
                         calls_to, discr_source)
-from ..mir import (callee_key, callee_paths, op_local, op_place, resolve_const, op_access_path, access_path,
+from ..mir import (strip_generics, callee_key, callee_paths, op_local, op_place, resolve_const, op_access_path, access_path,
                    place_fields)
 
 EXPL = ("Decides structural necessary conditions of C16 on MIR of nm_impl: (R1) in the single-threaded bag every "
@@ -255,6 +255,28 @@ def run(ctx):
                     meths = {t["callee"].get("method") for _k, _b, t in psl["calls"]}
                     listed = [x for x, _t in b.blocks[u].term["arms"]]
                     none_edge = lab == 0 or (lab == "otherwise" and listed == [1])
+                    # `scan.map_or(NoBucket, Bucket)`: the Option was re-labelled as a private two-state enum; its "none" label
+                    # is the variant given as the default
+                    d0 = b.unique_def(pl.get("l", 0)) if not pl.get("p") else None
+                    for _hop in range(6):   # through the moves a spliced-in helper's return leaves behind
+                        if d0 and d0[2] == "assign" and d0[3]["rv"]["k"] == "use" and op_local(d0[3]["rv"]["op"]) is not None:
+                            d0 = b.unique_def(op_local(d0[3]["rv"]["op"]))
+                        else:
+                            break
+                    if d0 and d0[2] == "call" and d0[3]["callee"].get("method") == "map_or" and len(d0[3]["args"]) == 3:
+                        dflt = d0[3]["args"][1]
+                        nl = None
+                        c0 = resolve_const(b, dflt)
+                        if c0 is not None and isinstance(c0.get("val"), int) and c0.get("variant"):
+                            nl = c0["val"]
+                        else:
+                            dd = b.unique_def(op_local(dflt)) if op_local(dflt) is not None else None
+                            if dd and dd[2] == "assign" and dd[3]["rv"]["k"] == "aggr" and "vidx" in dd[3]["rv"] and not dd[3]["rv"]["ops"]:
+                                nl = dd[3]["rv"]["vidx"]
+                        ctor = d0[3]["args"][2]
+                        is_ctor = ctor.get("k") == "const" and bool(ctor.get("fndef")) and not prog.by_key.get(strip_generics(ctor.get("fndef")))
+                        none_edge = nl is not None and is_ctor and (lab == nl or (lab == "otherwise" and nl not in listed))
+                        meths = meths | {t["callee"].get("method") for _k, _b, t in Slice(b, through_calls=False).run(d0[3]["args"][0])["calls"]}
                     return none_edge and bool(meths & (FIRST_MATCH | {"last", "first", "next", "get", "checked_sub", "split_last", "split_first"}))
                 return False
             only, _e = skips_only_via(b, bw_bbs, sanctioned, start=cw[0])
@@ -318,6 +340,9 @@ def run(ctx):
                 if l is not None:
                     for c in b.local_ty(l).get("closures", []):
                         cl = prog.bodies_by_key.get(c) if hasattr(prog, "bodies_by_key") else None
+                        if cl is None and prog.by_key.get(strip_generics(c)):
+                            # the scan sits in a helper spliced into several callers: its closure keeps the helper's path
+                            cl = prog.by_key[strip_generics(c)][0]
                         if cl is None:
                             for cb in prog.closures_of(b):
                                 if cb.key == c or c.startswith(cb.key) or cb.key.startswith(c):
@@ -582,6 +607,26 @@ def closure_pred_le(parent, cl):
                 if 2 in Slice(parent).run(o)["args"]:
                     cap_ok = True
         return eff == "Le" and cap_ok, f"hit iff magnitude {eff} bound (need Le); captures the magnitude parameter: {cap_ok}"
+    # `position(|&bound| magnitude <= bound)`: the closure's result IS the comparison
+    for blk in cl.blocks:
+        for st in blk.stmts:
+            if st["k"] == "assign" and st["place"]["l"] == 0 and not st["place"]["p"] and st["rv"]["k"] == "binop" and st["rv"]["op"] in ("Le", "Ge", "Lt", "Gt"):
+                rv = st["rv"]
+                sa, sb = Slice(cl).run(rv["a"]), Slice(cl).run(rv["b"])
+                a_mag = bool(sa["upvars"]) and 2 not in sa["args"]
+                b_mag = bool(sb["upvars"]) and 2 not in sb["args"]
+                if a_mag and 2 in sb["args"]:
+                    eff = rv["op"]
+                elif b_mag and 2 in sa["args"]:
+                    eff = {"Le": "Ge", "Ge": "Le", "Lt": "Gt", "Gt": "Lt"}[rv["op"]]
+                else:
+                    return False, f"comparison operands are not (captured magnitude, scanned bound): {rv['op']}"
+                cap_ok = False
+                for _bb, ops in closure_capture_ops(parent, cl.key):
+                    for o in ops:
+                        if 2 in Slice(parent).run(o)["args"]:
+                            cap_ok = True
+                return eff == "Le" and cap_ok, f"hit iff magnitude {eff} bound (need Le); captures the magnitude parameter: {cap_ok}"
     return False, "no comparison found in the predicate closure"
 
 
